@@ -75,8 +75,8 @@ pub fn read_tlc_lines_sharded(path: &str, tag: &str, shard: (u64, u64)) -> (usiz
         if (n as u64) % shard.1 == shard.0 {
             // safety net: 16 shards share 62 GB without swap; parsed JSON takes several times the text
             kept_bytes += line.len();
-            if kept_bytes > (150 << 20) {
-                eprintln!("input {path} is too large to be held in memory by one shard (> 150 MB of text per shard): use a smaller configuration or the streaming reader");
+            if kept_bytes > (200 << 20) {
+                eprintln!("input {path} is too large to be held in memory by one shard (> 200 MB of text per shard): use a smaller configuration or the streaming reader");
                 std::process::exit(2);
             }
             if let Some(v) = parse_tlc_line(&line, tag) {
